@@ -54,6 +54,7 @@ THEOREMS = [
     'C13_inline_den',
     'C13_inline_score_den',
     'C13_find_occurrences_sound',
+    'C13_find_occurrences_complete',
     'C13_inline_complete',
     'C13_inline_model',
     'C13_inline_total',
@@ -65,6 +66,7 @@ THEOREMS = [
     'C13_options_same_geometry',
     'C13_merged_surfaces_equal_senses',
     'C13_options_same_written_linked',
+    'C13_options_same_written_dedup_linked',
 ]
 TRUSTED = [
     'hand-written model coq/C13/Model.v (modelled, tied by execution only)',
